@@ -19,10 +19,10 @@ BOUNDS = (
     "- 1)), n = 1.5 ('sersic'), r the elliptical radius; eps in {0.1,0.3,0.6} (thorough also 0.05, 0.8), pa on the "
     "15-degree lattice in [0,180], centre off-integer drawn within +-3 px of the frame centre; initial geometry "
     "perturbed within 10 % (centre <= 1 px = 10 % of sma0 = 10, eps x(1+-0.1), pa +-0.1 rad); minsma 3 (one case 0), "
-    "maxsma 30..36, step 0.1 (thorough also linear step 2 and integrmode mean/median); quick: 8 free fits + 3 "
-    "fix_* fits, thorough: 36 + 9.  Well-sampled isophote: stop_code 0, sma >= 5, sma (1 - eps) >= 4, ellipse at "
+    "maxsma 30..36, step 0.1 (thorough also linear step 2 and integrmode mean/median); quick: 8 free fits + 4 "
+    "fix_* fits, thorough: 36 + 10.  Well-sampled isophote: stop_code 0, sma >= 5, sma (1 - eps) >= 4, ellipse at "
     "least 3 px inside the frame.  Tolerances on those: centre 3 sigma + 0.03 px (0.06 for the sector integration modes), eps 3 sigma + 0.01, pa (mod pi) "
-    "3 sigma + 0.02 rad, intensity 3 sigma + 1 % (bilinear sampling bias of the curved profile; 3 % for the sector-averaging modes mean/median); all three fix_* flags together are excluded (documented: 'Everything is fixed. Fit not possible.' -> empty list); fixed parameters "
+    "3 sigma + 0.02 rad, intensity 3 sigma + 1 % (bilinear sampling bias of the curved profile; 3 % for eps = 0.8 where the profile across the minor axis is only 2.8 px wide; x3 for the sector-averaging modes mean/median); all three fix_* flags together are excluded (documented: 'Everything is fixed. Fit not possible.' -> empty list); fixed parameters "
     "exact (==; pa within 1e-12: the fitter's pa +- pi/2 round trip when eps crosses zero costs 1 ulp), sma0 = 20 for eps = 0.8 (initial semi-minor axis >= 3 px: basin of convergence); model within 2 % for pixels with elliptical radius in [max(6, 7/(1-eps)), 0.8 max sma].")
 
 RULE = (
@@ -194,7 +194,12 @@ def eval_fit(case):
         fail('fit_image/fix_center-not-honoured', f'x0 in {sorted(set(xs.tolist()))[:4]} y0 in '
              f'{sorted(set(ys.tolist()))[:4]}, requested fixed ({ix},{iy})')
     if fixp and not np.all(np.abs(ps[nz] - ip) <= 1e-12):
-        fail('fit_image/fix_pa-not-honoured', f'pa values {sorted(set(ps.tolist()))[:4]}, requested fixed {ip}')
+        dev = np.abs(ps[nz] - ip)
+        off = dev > 1e-12
+        quarter = np.all(np.abs(dev[off] - math.pi / 2) <= 1e-9)
+        fail('fit_image/fix_pa-flipped-by-eps-sign-crossing' if quarter else 'fit_image/fix_pa-not-honoured',
+             f'fix_pa=True, requested pa {ip}: isophotes at sma {np.round(sma[nz][off], 2).tolist()[:5]} have pa '
+             f'{ps[nz][off].tolist()[:3]}' + (' = requested + pi/2 (eps crossed zero in the fitter)' if quarter else ''))
     if fixe and not np.all(es[nz] == ie):
         fail('fit_image/fix_eps-not-honoured', f'eps values {sorted(set(es.tolist()))[:4]}, requested fixed {ie}')
 
@@ -217,7 +222,7 @@ def eval_fit(case):
             ('y0', np.abs(ys - y0), 3 * _err(iso.y0_err) + 0.03 * loose),
             ('eps', np.abs(es - eps), 3 * _err(iso.ellip_err) + 0.01),
             ('pa', dpa, 3 * _err(iso.pa_err) + 0.02),
-            ('intens', np.abs(ints - truth_i), 3 * _err(iso.int_err) + (0.01 if loose == 1.0 else 0.03) * truth_i),
+            ('intens', np.abs(ints - truth_i), 3 * _err(iso.int_err) + (0.01 if eps < 0.7 else 0.03) * (1.0 if loose == 1.0 else 3.0) * truth_i),
         ]
         for name, dev, tol in checks:
             if well.any():
@@ -299,6 +304,11 @@ def _fit_cases(ctx):
         fixes += [{'fix_center': True, 'fix_pa': True}, {'fix_pa': True, 'fix_eps': True},
                   {'fix_center': True, 'fix_eps': True}, {'fix_eps': True, 'linear': True, 'step': 2.0},
                   {'fix_center': True, 'linear': True, 'step': 2.0}, {'fix_pa': True, 'minsma': 0.0}]
+    # deterministic case: nearly round galaxy, fix_pa down to the centre (eps crosses zero at sub-pixel sma)
+    pa75 = math.radians(75)
+    out.append({'kind': 'fit', 'shape': [81, 95], 'x0': 47.6, 'y0': 39.9, 'eps': 0.1, 'pa': pa75, 'law': 'gauss',
+                'init': [48.05, 39.5, 0.108, pa75 - 0.007, 10.0],
+                'opts': {'minsma': 0.0, 'maxsma': 30.0, 'step': 0.15, 'fix_pa': True}, 'model': False})
     for j, fx in enumerate(fixes):
         eps, padeg, law = [(0.3, 40, 'gauss'), (0.6, 110, 'sersic'), (0.1, 75, 'gauss')][j % 3]
         shape = [81, 95]
